@@ -598,3 +598,7 @@ func init() {
 func init() {
 	ctl("wait without a limit polls for ever", "P-POLL", "Wait|polling loop", "database/transaction", "Transaction", "Wait", kStmt, "if timeout == nil {", 0, to("if timeout == nil {\ntime.Sleep(200 * time.Millisecond)\ncontinue\n}"))
 }
+
+func init() {
+	ctl("snapshot loop trusts every per-table request", "P-NIL-MON", "(*server.OvsdbServer).MonitorCond|deref request of a ranged table", "server", "OvsdbServer", "MonitorCond", kExpr, "request == nil", 0, to("false"))
+}
